@@ -211,7 +211,7 @@ def run(rng, tier, model_ok):
         "evaluations": 2 * len(inputs) + len(sample), "distinct_nontrivial": len(set(inputs)),
         "rule": "token soups of up to 40 tokens (numbers with exponents up to 3 digits, powers up to 2 digits, unit words, keywords, operators, "
                 "braces, Unicode blanks and stray characters), well-formed random queries and single-edit mutations of them, products / quotients / "
-                "powers / sums of quantities with derived units, arbitrary Unicode strings; each in the debug-assertion and in the release build, "
+                "powers / sums of quantities with derived units, boundary operands under every operator, every function x arguments at the edges of the float and machine-integer ranges, arbitrary Unicode strings; each in the debug-assertion and in the release build, "
                 "a sample through the `any` binary; non-trivial = distinct inputs",
         "samples": [inputs[i] for i in (3, len(inputs) // 3, len(inputs) // 2, len(inputs) - 2)],
         "mismatches": mismatches, "failures": failures,
